@@ -138,10 +138,15 @@ def register(E):
     def ord_cmp(E, st, ty, x, y):
         """[(cond, is_greater(x, y) as z3 Bool, state)]"""
         res = []
-        for c, o in E.call_value(st, FnItem('<' + ty + ' as std::cmp::Ord>::cmp'), [E.root_ref(st, x), E.root_ref(st, y)]):
+        # std's BinaryHeap sifts with `<=` / `>=`, i.e. through PartialOrd::partial_cmp of the element type (not Ord::cmp)
+        for c, o in E.call_value(st, FnItem('<' + ty + ' as std::cmp::PartialOrd>::partial_cmp'), [E.root_ref(st, x), E.root_ref(st, y)]):
             if o.kind != 'ret':
-                raise Inconclusive('Ord::cmp panics inside BinaryHeap: ' + str(o.value))
+                raise Inconclusive('partial_cmp panics inside BinaryHeap: ' + str(o.value))
             v = o.value
+            if isinstance(v, Adt) and v.ty.endswith('Option'):
+                if v.variant != 'Some':
+                    raise Inconclusive('BinaryHeap over a partially ordered element (partial_cmp returned None)')
+                v = v.fields[0]
             if isinstance(v, Adt):
                 g = z3.BoolVal(v.variant == 'Greater')
             elif hasattr(v, 'v'):
@@ -202,9 +207,55 @@ def register(E):
         item = 'cmp' if mt.group(2) == 'Ord' else 'partial_cmp'
         return E.outs_to_model(E.call_value(st, FnItem('<' + mt.group(1) + ' as std::cmp::' + mt.group(2) + '>::' + item), [E.root_ref(st, y.fields[0]), E.root_ref(st, x.fields[0])]))
 
+    @model(r'^<std::ops::(Range|RangeInclusive) as std::iter::(?:Iterator|DoubleEndedIterator|IntoIterator)>::(rev|into_iter|map|filter|find|any|all|position|count|filter_map|next)$')
+    def _(E, st, callee, a, m):
+        """integer ranges with concrete bounds become an explicit sequence (symbolic bounds: one outcome per value up to the
+        engine's loop bound would be needed - not modelled)"""
+        r = d(st, a[0])
+        lo, hi = d(st, r.fields[0]), d(st, r.fields[1])
+        lc, hc = lo.conc(), hi.conc()
+        if lc is None or hc is None:
+            raise Inconclusive('iteration over an integer range with symbolic bounds')
+        if m.group(1) == 'RangeInclusive': hc += 1
+        items = tuple(I(k, lo.w, lo.s) for k in range(lc, max(lc, hc)))
+        op = m.group(2)
+        if op == 'into_iter':
+            return [(T, Obj('SeqIter', (items, 0)))]
+        if op == 'rev':
+            return [(T, Obj('SeqIter', (items[::-1], 0)))]
+        if op == 'next':
+            raise Inconclusive('Range::next on a place (use a for loop model)')
+        tmp = E.root_ref(st, Obj('SeqIter', (items, 0)))
+        return E.seq_iter_op(E, st, callee, [tmp] + list(a[1:]), op)
+
     @model(r'^std::collections::(?:HashMap|BTreeMap)::entry$')
     def _(E, st, callee, a, m):
         return [(T, Obj('MapEntry', (a[0], a[1])))]
+
+    @model(r'^std::collections::(?:hash_map|btree_map)::Entry::and_modify$')
+    def _(E, st, callee, a, m):
+        ent = d(st, a[0])
+        mref, key = ent.data
+        mp = d(st, mref)
+        kind, ents = mp.data
+        from .core_models import deep_eq
+        base = mref
+        while isinstance(base, Ref):
+            nxt = E.read_ref(st, base)
+            if isinstance(nxt, Ref): base = nxt
+            else: break
+        outs, before = [], T
+        for i, (k, v) in enumerate(ents):
+            e = z3.simplify(deep_eq(E, st, k, key))
+            c = z3.simplify(z3.And(before, e)); before = z3.simplify(z3.And(before, z3.Not(e)))
+            if z3.is_false(c): continue
+            for c1, o in E.call_value(st, a[1], [Ref(base.frame, base.local, base.proj + (('mapval', i),))]):
+                if o.kind != 'ret':
+                    raise Inconclusive('and_modify closure panics: ' + str(o.value))
+                outs.append((z3.simplify(z3.And(c, c1)), ent, (lambda st2, s_after=o.st: adopt_state(st2, s_after))))
+        if not z3.is_false(before):
+            outs.append((before, ent))
+        return outs
 
     @model(r'^std::collections::(?:hash_map|btree_map)::Entry::(or_insert_with|or_insert|or_default)$')
     def _(E, st, callee, a, m):
@@ -249,7 +300,7 @@ def register(E):
             outs.append((z3.simplify(z3.And(before, c)), None, eff))
         return outs
 
-    @model(r'^<(?:std::slice::Iter|std::slice::IterMut|std::vec::IntoIter|std::option::IntoIter|std::option::Iter|std::array::IntoIter|std::collections::btree_set::IntoIter|std::collections::btree_set::Iter|std::collections::hash_set::IntoIter|std::collections::hash_set::Iter|std::collections::hash_map::Iter|std::collections::hash_map::IntoIter|std::collections::hash_map::Keys|std::collections::btree_map::Iter) as std::iter::Iterator>::(\w+)$')
+    @model(r'^<(?:std::slice::Iter|std::slice::IterMut|std::vec::IntoIter|std::option::IntoIter|std::option::Iter|std::array::IntoIter|std::collections::btree_set::IntoIter|std::collections::btree_set::Iter|std::collections::hash_set::IntoIter|std::collections::hash_set::Iter|std::collections::hash_map::Iter|std::collections::hash_map::IntoIter|std::collections::hash_map::Keys|std::collections::btree_map::Iter|std::iter::Flatten|std::iter::Inspect) as std::iter::Iterator>::(\w+)$')
     def _(E, st, callee, a, m):
         return seq_iter_op(E, st, callee, a, m.group(1))
 
@@ -292,6 +343,50 @@ def register(E):
             return [(T, Obj('SeqIter', (tuple(rest[:n]), 0)))]
         if op == 'peekable':
             return [(T, Obj('SeqIter', (tuple(rest), 0)))]
+        if op == 'inspect':
+            # eager: the closure's side effects (counters) happen now; the order relative to consumption is not observable
+            cur = [(T, st)]
+            for x in rest:
+                nxt = []
+                for c0, s0 in cur:
+                    for c1, o in E.call_value(s0, a[1], [E.root_ref(s0, x) if not isinstance(x, Ref) else E.root_ref(s0, x)]):
+                        if o.kind != 'ret':
+                            raise Inconclusive('inspect closure panics: ' + str(o.value))
+                        nxt.append((z3.simplify(z3.And(c0, c1)), o.st))
+                cur = nxt
+            out = []
+            for c, s_after in cur:
+                out.append((c, Obj('SeqIter', (tuple(rest), 0)), (lambda st2, s_after=s_after: adopt_state(st2, s_after))))
+            return out
+        if op == 'flatten':
+            # eager: every element is itself iterable; hash sets contribute one outcome per iteration order
+            acc = [(T, ())]
+            for x in rest:
+                xv = d(st, x)
+                if isinstance(xv, Obj) and xv.kind in ('Set', 'HSet'):
+                    alts = E.hash_orders(E, xv.kind == 'HSet', tuple(xv.data), lambda items: tuple(items))
+                elif isinstance(xv, Obj) and xv.kind == 'Map':
+                    kind_, ents_ = xv.data
+                    base = x
+                    while isinstance(base, Ref):
+                        nx = E.read_ref(st, base)
+                        if isinstance(nx, Ref): base = nx
+                        else: break
+                    if isinstance(base, Ref):
+                        its_ = tuple(Tup([k if isinstance(k, Str) else Ref(base.frame, base.local, base.proj + (('mapkey', i),)), Ref(base.frame, base.local, base.proj + (('mapval', i),))]) for i, (k, v) in enumerate(ents_))
+                    else:
+                        its_ = tuple(Tup([k, v]) for k, v in ents_)
+                    alts = E.hash_orders(E, kind_ == 'HashMap', its_, lambda items: tuple(items))
+                elif isinstance(xv, Obj) and xv.kind == 'SeqIter':
+                    alts = [(T, tuple(xv.data[0][xv.data[1]:]))]
+                elif isinstance(xv, (Seq,)) or isinstance(xv, Obj) and xv.kind == 'Vec':
+                    alts = [(T, tuple(items_of(st, xv)))]
+                elif isinstance(xv, Adt) and xv.ty.endswith('Option'):
+                    alts = [(T, tuple(xv.fields[:1]) if xv.variant == 'Some' else ())]
+                else:
+                    raise Inconclusive('flatten over ' + repr(xv))
+                acc = [(z3.simplify(z3.And(c0, c1)), vals + more) for c0, vals in acc for c1, more in alts]
+            return [(c, Obj('SeqIter', (vals, 0))) for c, vals in acc]
         if op in ('map', 'filter', 'filter_map', 'flat_map', 'for_each', 'fold', 'try_fold', 'chain', 'zip', 'max_by_key', 'min_by_key', 'sum', 'max', 'min'):
             return lazy_adaptor(E, st, callee, a, op, rest)
         raise Inconclusive('SeqIter::' + op)
@@ -560,6 +655,9 @@ def register(E):
                         res.append((c, some(vals[0]), eff3))
                     else:
                         res.append((c, NONE, eff2))
+                elif op in ('cloned', 'copied', 'peekable', 'fuse', 'into_iter'):
+                    # by-value views of the materialised sequence (values are immutable in this model)
+                    res.append((c, Obj('SeqIter', (tuple(E.deref(s_after, x) if isinstance(x, Ref) and op in ('cloned', 'copied') else x for x in vals), 0)), eff))
                 else:
                     raise Inconclusive('adaptor op ' + op)
         return res
@@ -775,7 +873,7 @@ def register_maps(E):
         if proj and proj[0][0] == 'mapval':
             kind, ents = v.data
             i = proj[0][1]
-            nv = old_upd(st, fid, ents[i][1], proj[1:], val) if len(proj) > 1 else val
+            nv = E._upd(st, fid, ents[i][1], proj[1:], val) if len(proj) > 1 else val      # nested maps: recurse through this hook
             return mk(kind, ents[:i] + ((ents[i][0], nv),) + ents[i + 1:])
         return old_upd(st, fid, v, proj, val)
     E._upd = _upd
